@@ -14,6 +14,10 @@ def programs(ctx):
         shapes = [(k, n, g) for k in ("tuple", "named") for n in range(0, 5) for g in (False, True) if not (g and n == 0)] + [("unit", 0, False)]
     for i, (kind, n, g) in enumerate(shapes):
         out.append(fam2.c08_prog("p_%04d" % i, kind, n, ALL, generic=g))
+    # explicit bound(..) arguments (per entry, shared, nested on a field) must not change what the operators do
+    some = ["Sub", "SubAssign", "Shl", "ShlAssign", "Add", "AddAssign", "Neg"] if ctx.quick else ALL
+    for j, (mode, kind) in enumerate([("entry", "tuple"), ("shared", "named"), ("field", "tuple")] + ([] if ctx.quick else [("entry", "named"), ("shared", "tuple"), ("field", "named")])):
+        out.append(fam2.c08_prog("p_%04d" % (len(shapes) + j), kind, 2, some, bounds=mode))
     return out
 
 
